@@ -3,10 +3,21 @@
 //! requests (strings hex; `{B}` inside a directory, an IRI or a file content = absolute path of the
 //! sandbox materialised for the request's file-system listing):
 //!   g <cfg> <fs> <iri>          LocalLoader::new(cfg) then Loader::get(iri)
-//!   l <cfg> <fs> <iri> <pred>   loader.get_resource(iri) then Resource::get_resource(pred): a link
-//!                               planted in loaded Turtle data is followed by the real code
+//!   l <cfg> <fs> <iri> <pred> [<mode> [<link>]]
+//!                               loader.get_resource(iri) then a link planted in the loaded Turtle / N-Triples
+//!                               data is followed by the real code; mode = one (Resource::get_resource, the
+//!                               default) | any (get_any_resource) | all (get_all_resources) | items
+//!                               (get_resource_items over an RDF list) | pred (pred_resource: the link is the
+//!                               SUBJECT); <link> = the absolute IRI planted verbatim (N-Triples documents:
+//!                               no base resolution, so dot segments reach the loader), `-` otherwise
+//!   j <cfg> <fs> <iri>          loader.get_resource(iri) on a JSON-LD document whose `@context` names remote
+//!                               contexts: they are fetched by the closure `get_graph` installs as document loader
+//!   y <cfg> <fs> <iri>          like g, on a sandbox with symbolic links (`s:` entries).  The property excludes
+//!                               symlinks: the answer is REPORTED (sym=..), never flagged, except that a read
+//!                               through a link that stays inside the directory must still satisfy the oracle
 //!   cfg = `-` | <ns>:<dir>(,<ns>:<dir>)*
-//!   fs  = `-` | entry(,entry)*   entry = f:<relpath> | d:<relpath> | c:<relpath>:<content>
+//!   fs  = `-` | entry(,entry)*   entry = f:<relpath> | d:<relpath> | c:<relpath>:<content> | s:<relpath>:<target>
+//!         f: = file with the canonical marker content (N-Triples, or JSON-LD when the name ends in .jsonld)
 //!
 //! Every file of a sandbox has unique content, so the bytes that come back identify the file
 //! that was read.  The oracle (also computed here, independently of the model, with the OS's own
@@ -52,9 +63,15 @@ fn run_dir() -> PathBuf {
     Path::new(env!("CARGO_MANIFEST_DIR")).join("../../../.cache/run/C19")
 }
 
+/// canonical content of an `f:` entry, unique per path.  `.jsonld` files are JSON-LD documents that are
+/// also usable as a remote context (it maps the term `vhmark` to an IRI naming the file)
 fn marker(rel: &str) -> String {
     let h = hex(rel);
-    format!("<urn:vh:file:{h}> <urn:vh:is> \"{h}\" .\n")
+    if rel.ends_with(".jsonld") {
+        format!("{{\"@context\":{{\"vhmark\":\"urn:vh:ctx:{h}\"}},\"@id\":\"urn:vh:file:{h}\",\"urn:vh:is\":\"{h}\"}}\n")
+    } else {
+        format!("<urn:vh:file:{h}> <urn:vh:is> \"{h}\" .\n")
+    }
 }
 
 fn layout_for(fs_tok: &str) -> Result<std::rc::Rc<Layout>, String> {
@@ -70,7 +87,7 @@ fn layout_for(fs_tok: &str) -> Result<std::rc::Rc<Layout>, String> {
             // sandboxes left behind by killed runs (a live run removes its own on exit)
             if let Ok(entries) = std::fs::read_dir(&rd) {
                 for e in entries.flatten() {
-                    let stale = e.metadata().and_then(|m| m.modified()).ok().and_then(|t| t.elapsed().ok()).map(|d| d.as_secs() > 7200);
+                    let stale = e.metadata().and_then(|m| m.modified()).ok().and_then(|t| t.elapsed().ok()).map(|d| d.as_secs() > 86400);
                     if e.file_name().to_string_lossy().starts_with("sbx-") && stale == Some(true) {
                         let _ = std::fs::remove_dir_all(e.path());
                     }
@@ -91,6 +108,13 @@ fn layout_for(fs_tok: &str) -> Result<std::rc::Rc<Layout>, String> {
         if fs_tok != "-" {
             for e in fs_tok.split(',') {
                 let parts: Vec<&str> = e.split(':').collect();
+                if let ["s", p, t] = parts.as_slice() {
+                    let (rel, target) = (unhex(p).ok_or("bad-hex")?, unhex(t).ok_or("bad-hex")?);
+                    let full = base.join(&rel);
+                    std::fs::create_dir_all(full.parent().unwrap()).map_err(|e| e.to_string())?;
+                    std::os::unix::fs::symlink(target.replace(PH, &base_s), &full).map_err(|e| e.to_string())?;
+                    continue;
+                }
                 let (rel, content) = match parts.as_slice() {
                     ["f", p] => {
                         let rel = unhex(p).ok_or("bad-hex")?;
@@ -253,121 +277,273 @@ fn graph_origin(g: &MyGraph) -> Option<String> {
     found
 }
 
-pub fn exec(line: &str) -> String {
-    let toks: Vec<&str> = line.split_whitespace().collect();
-    match toks.as_slice() {
-        ["g", c, f, i] => {
-            let lay = match layout_for(f) {
-                Ok(l) => l,
-                Err(e) => return if e == "bad-hex" || e == "bad-op" { e } else { format!("sandbox-error={}", hex(&e)) },
-            };
-            let (Some(cfg), Some(iri)) = (parse_cfg(c, &lay.base), unhex(i)) else {
-                return "bad-hex".into();
-            };
-            let iri = iri.replace(PH, &lay.base);
-            let loader = match make_loader(&cfg) {
-                Ok(l) => l,
-                Err(k) => return format!("new={k}"),
-            };
-            let g = do_get(&loader, &cfg, &lay, &iri);
-            if g.res == "dbgpanic" {
-                return "new=ok feat=jsonld+xml dbgpanic=1 valid=0".into();
-            }
-            let mut r = format!(
-                "new=ok feat=jsonld+xml res={} io={} read={} ct={} escaped={} valid={}",
-                g.res,
-                g.io,
-                g.read,
-                g.ct,
-                g.escaped as u8,
-                Iri::new(iri.as_str()).is_ok() as u8
-            );
+/// a loader that records every `get` it is asked for (IRI, bytes returned) and delegates to the real one;
+/// `get_graph` / `get_resource` are the provided methods of the trait, so the JSON-LD document loader
+/// closure and `Resource::get_neighbour` run unchanged on top of it
+struct Spy {
+    inner: LocalLoader,
+    log: std::sync::Mutex<Vec<(String, Option<Vec<u8>>)>>,
+}
+
+impl Loader for Spy {
+    fn get<T: std::borrow::Borrow<str>>(&self, iri: Iri<T>) -> Result<(Vec<u8>, String), LoaderError> {
+        let r = self.inner.get(iri.as_ref());
+        self.log.lock().unwrap().push((iri.as_str().to_string(), r.as_ref().ok().map(|x| x.0.clone())));
+        r
+    }
+}
+
+type Setup = (std::rc::Rc<Layout>, Vec<(String, String)>, String);
+
+/// sandbox + configuration + IRI of a request; Err = the reply
+fn setup(c: &str, f: &str, i: &str) -> Result<Setup, String> {
+    let lay = match layout_for(f) {
+        Ok(l) => l,
+        Err(e) => return Err(if e == "bad-hex" || e == "bad-op" { e } else { format!("sandbox-error={}", hex(&e)) }),
+    };
+    let (Some(cfg), Some(iri)) = (parse_cfg(c, &lay.base), unhex(i)) else {
+        return Err("bad-hex".into());
+    };
+    let iri = iri.replace(PH, &lay.base);
+    Ok((lay, cfg, iri))
+}
+
+fn exec_g(c: &str, f: &str, i: &str, symlinks: Option<&str>) -> String {
+    let (lay, cfg, iri) = match setup(c, f, i) {
+        Ok(x) => x,
+        Err(r) => return r,
+    };
+    let loader = match make_loader(&cfg) {
+        Ok(l) => l,
+        Err(k) => return format!("new={k}"),
+    };
+    let g = do_get(&loader, &cfg, &lay, &iri);
+    if let Some(kind) = symlinks {
+        // symbolic links are outside the property (and the model): what happens is REPORTED, not judged --
+        // except for links that stay inside the directory (`in`), where the oracle, which locates the file
+        // that was read with the OS's own canonicalisation, applies as usual
+        let mut r = format!("new=ok sym={} symread={} symesc={}", g.res, g.read, g.escaped as u8);
+        if kind == "in" {
             if let Some(p) = g.fail {
                 r.push_str(&format!(" FAIL.escape={p}"));
             }
-            r
         }
-        ["l", c, f, i, p] => {
-            let lay = match layout_for(f) {
-                Ok(l) => l,
-                Err(e) => return if e == "bad-hex" || e == "bad-op" { e } else { format!("sandbox-error={}", hex(&e)) },
-            };
-            let (Some(cfg), Some(iri), Some(pred)) = (parse_cfg(c, &lay.base), unhex(i), unhex(p)) else {
-                return "bad-hex".into();
-            };
-            let iri = iri.replace(PH, &lay.base);
-            let loader = match make_loader(&cfg) {
-                Ok(l) => l.arced(),
-                Err(k) => return format!("new={k}"),
-            };
-            let doc: Resource<MyGraph, LocalLoader> = match loader.get_resource(Iri::new_unchecked(iri.as_str())) {
-                Ok(r) => r,
-                Err(e) => return format!("new=ok doc={} escaped=0 linkdiff=0", loader_err(&e).0),
-            };
-            let pred = Iri::new_unchecked(pred);
-            let link = match doc.get_term(pred.clone()) {
-                Ok(t) => match t.iri() {
-                    Some(i) => i.as_str().to_string(),
-                    None => return "new=ok doc=ok link=notiri escaped=0 linkdiff=0".into(),
-                },
-                Err(_) => return "new=ok doc=ok link=none escaped=0 linkdiff=0".into(),
-            };
-            // what the same loader returns for the IRI found in the data, asked directly
-            let direct = do_get(&loader, &cfg, &lay, &link);
-            let (res, via): (String, Option<String>) = match doc.get_resource(pred) {
-                Ok(n) => {
-                    let same = n.base().map(|b| b.as_str()) == doc.base().map(|b| b.as_str())
-                        && std::sync::Arc::ptr_eq(n.graph(), doc.graph());
-                    if same {
-                        ("samedoc".into(), None)
-                    } else {
-                        ("ok".into(), Some(graph_origin(n.graph()).map(|h| h).unwrap_or_else(|| "nomarker".into())))
-                    }
-                }
-                Err(ResourceError::LoaderError(e)) => {
-                    let k = loader_err(&e).0;
-                    // the file was read but could not be parsed: the direct answer tells which one
-                    if k == "parse" || k == "cantguess" { (k.into(), Some(direct.read.clone())) } else { (k.into(), None) }
-                }
-                Err(ResourceError::IriNotAbsolute(_)) => ("notabsolute".into(), None),
-                Err(_) => ("othererr".into(), None),
-            };
-            let mut escaped = false;
-            let mut fail = String::new();
-            let read = match &via {
-                None => "none".to_string(),
-                Some(h) => {
-                    match unhex(h).filter(|rel| lay.by_content.values().any(|v| v == rel)) {
-                        Some(rel) => {
-                            if !confined(&cfg, &lay, &link, &rel) {
-                                escaped = true;
-                                fail.push_str(&format!(" FAIL.escape={h}"));
-                            }
-                        }
-                        None => {
-                            escaped = true;
-                            fail.push_str(&format!(" FAIL.escape={}", hex("<not a sandbox file>")));
-                        }
-                    }
-                    h.clone()
-                }
-            };
-            // following a link = calling `get` with the IRI taken from the data
-            let linkdiff = res != "samedoc" && res != "notabsolute" && read != direct.read;
-            if linkdiff {
-                fail.push_str(&format!(" FAIL.link_differs={}", direct.read));
+        return r;
+    }
+    if g.res == "dbgpanic" {
+        return "new=ok feat=jsonld+xml dbgpanic=1 valid=0".into();
+    }
+    let mut r = format!(
+        "new=ok feat=jsonld+xml res={} io={} read={} ct={} escaped={} valid={}",
+        g.res,
+        g.io,
+        g.read,
+        g.ct,
+        g.escaped as u8,
+        Iri::new(iri.as_str()).is_ok() as u8
+    );
+    if let Some(p) = g.fail {
+        r.push_str(&format!(" FAIL.escape={p}"));
+    }
+    r
+}
+
+const P_LIST: &str = "urn:vh:q";
+const P_REV: &str = "urn:vh:r";
+
+fn exec_l(c: &str, f: &str, i: &str, p: &str, mode: &str) -> String {
+    let (lay, cfg, iri) = match setup(c, f, i) {
+        Ok(x) => x,
+        Err(r) => return r,
+    };
+    let Some(pred) = unhex(p) else { return "bad-hex".into() };
+    let loader = match make_loader(&cfg) {
+        Ok(l) => l.arced(),
+        Err(k) => return format!("new={k}"),
+    };
+    let doc: Resource<MyGraph, LocalLoader> = match loader.get_resource(Iri::new_unchecked(iri.as_str())) {
+        Ok(r) => r,
+        Err(e) => return format!("new=ok doc={} escaped=0 linkdiff=0", loader_err(&e).0),
+    };
+    let pred = Iri::new_unchecked(pred);
+    let link = match doc.get_term(pred.clone()) {
+        Ok(t) => match t.iri() {
+            Some(i) => i.as_str().to_string(),
+            None => return "new=ok doc=ok link=notiri escaped=0 linkdiff=0".into(),
+        },
+        Err(_) => return "new=ok doc=ok link=none escaped=0 linkdiff=0".into(),
+    };
+    // what the same loader returns for the IRI found in the data, asked directly
+    let direct = do_get(&loader, &cfg, &lay, &link);
+    // the entry point of `Resource` under test; every one of them ends in `get_neighbour`
+    let followed = catch(std::panic::AssertUnwindSafe(|| match mode {
+        "one" => Some(doc.get_resource(pred)),
+        "any" => doc.get_any_resource(pred).transpose(),
+        "all" => doc.get_all_resources(pred).next(),
+        "items" => doc.get_resource_items(Iri::new_unchecked(P_LIST)).next(),
+        "pred" => Some(doc.pred_resource(Iri::new_unchecked(P_REV))),
+        _ => None,
+    }));
+    let followed = match followed {
+        Ok(Some(x)) => x,
+        Ok(None) => return format!("new=ok doc=ok link={} res=novalue read=none escaped=0 linkdiff=0", hex(&link)),
+        // debug assertion of an `Iri::new_unchecked` on an error path (see `do_get`)
+        Err(_) => return format!("new=ok doc=ok link={} dbgpanic=1 escaped=0 linkdiff=0", hex(&link)),
+    };
+    let (res, via): (String, Option<String>) = match followed {
+        Ok(n) => {
+            let same = n.base().map(|b| b.as_str()) == doc.base().map(|b| b.as_str()) && std::sync::Arc::ptr_eq(n.graph(), doc.graph());
+            if same {
+                ("samedoc".into(), None)
+            } else {
+                ("ok".into(), Some(graph_origin(n.graph()).unwrap_or_else(|| "nomarker".into())))
             }
-            format!(
-                "new=ok doc=ok link={} res={} read={} escaped={} linkdiff={} dres={}{}",
-                hex(&link),
-                res,
-                read,
-                escaped as u8,
-                linkdiff as u8,
-                direct.res,
-                fail
-            )
         }
+        Err(ResourceError::LoaderError(e)) => {
+            let k = loader_err(&e).0;
+            // the file was read but could not be parsed: the direct answer tells which one
+            if k == "parse" || k == "cantguess" { (k.into(), Some(direct.read.clone())) } else { (k.into(), None) }
+        }
+        Err(ResourceError::IriNotAbsolute(_)) => ("notabsolute".into(), None),
+        Err(_) => ("othererr".into(), None),
+    };
+    let mut escaped = false;
+    let mut fail = String::new();
+    let read = match &via {
+        None => "none".to_string(),
+        Some(h) => {
+            match unhex(h).filter(|rel| lay.by_content.values().any(|v| v == rel)) {
+                Some(rel) => {
+                    if !confined(&cfg, &lay, &link, &rel) {
+                        escaped = true;
+                        fail.push_str(&format!(" FAIL.escape={h}"));
+                    }
+                }
+                None if h == "none" => {}
+                None => {
+                    escaped = true;
+                    fail.push_str(&format!(" FAIL.escape={}", hex("<not a sandbox file>")));
+                }
+            }
+            h.clone()
+        }
+    };
+    // following a link = calling `get` with the IRI taken from the data
+    let linkdiff = res != "samedoc" && res != "notabsolute" && direct.res != "dbgpanic" && read != direct.read;
+    if linkdiff {
+        fail.push_str(&format!(" FAIL.link_differs={}", direct.read));
+    }
+    let mut r = format!(
+        "new=ok doc=ok link={} read={} escaped={} linkdiff={} dres={}",
+        hex(&link),
+        read,
+        escaped as u8,
+        linkdiff as u8,
+        direct.res
+    );
+    // `ok` / `parse` / `cantguess` depend on the parsers: all three mean "bytes were read"
+    r.push_str(&format!(" res={}", res));
+    r.push_str(&format!(" fres={}", if via.is_some() { "read" } else { res.as_str() }));
+    r.push_str(&fail);
+    r
+}
+
+/// contexts a JSON-LD document was expanded with: the marker contexts map `vhmark` to `urn:vh:ctx:<hex rel>`
+fn ctx_origins(g: &MyGraph) -> Vec<String> {
+    let mut out = vec![];
+    for t in g.triples().flatten() {
+        if let Some(p) = t.p().iri() {
+            if let Some(h) = p.as_str().strip_prefix("urn:vh:ctx:") {
+                if !out.iter().any(|x: &String| x == h) {
+                    out.push(h.to_string());
+                }
+            }
+        }
+    }
+    out.sort();
+    out
+}
+
+fn exec_j(c: &str, f: &str, i: &str) -> String {
+    let (lay, cfg, iri) = match setup(c, f, i) {
+        Ok(x) => x,
+        Err(r) => return r,
+    };
+    let loader = match make_loader(&cfg) {
+        Ok(l) => l.arced(),
+        Err(k) => return format!("new={k}"),
+    };
+    // 1. the real loader on its own: which context file ended up in the expansion?
+    let plain = catch(std::panic::AssertUnwindSafe(|| loader.get_resource::<_, MyGraph>(Iri::new_unchecked(iri.as_str()))));
+    let (doc, ctx) = match &plain {
+        Ok(Ok(r)) => ("ok", ctx_origins(r.graph())),
+        Ok(Err(e)) => (loader_err(e).0, vec![]),
+        Err(_) => ("dbgpanic", vec![]),
+    };
+    // 2. the same through the recording wrapper: every IRI the JSON-LD processor asked `get` for
+    let spy = std::sync::Arc::new(Spy { inner: (*loader).clone(), log: Default::default() });
+    let spied = catch(std::panic::AssertUnwindSafe(|| spy.get_resource::<_, MyGraph>(Iri::new_unchecked(iri.as_str())).map(|r| ctx_origins(r.graph()))));
+    let log = spy.log.lock().unwrap().clone();
+    let mut escaped = false;
+    let mut fail = String::new();
+    let mut logged: Vec<String> = vec![];
+    let mut asked: Vec<String> = vec![];
+    for (k, (u, data)) in log.iter().enumerate() {
+        if k > 0 {
+            asked.push(hex(u));
+        }
+        let (read, esc, f) = classify(&cfg, &lay, u, data.as_deref());
+        if esc {
+            escaped = true;
+            fail.push_str(&format!(" FAIL.escape={}", f.unwrap_or_default()));
+        }
+        if read != "none" {
+            logged.push(read);
+        }
+    }
+    // 3. a context file in the expansion that no `get` returned was read behind the loader's back
+    let mut unlogged = false;
+    for h in &ctx {
+        if !logged.iter().any(|x| x == h) {
+            unlogged = true;
+            let under_some_dir = unhex(h).map(|rel| {
+                let file = Path::new(&lay.base).join(&rel);
+                lay.by_content.values().any(|v| *v == rel)
+                    && cfg.iter().any(|(_, d)| std::fs::canonicalize(d).map(|d| file.starts_with(&d)).unwrap_or(false))
+            });
+            if under_some_dir != Some(true) {
+                escaped = true;
+                fail.push_str(&format!(" FAIL.escape={h}"));
+            }
+        }
+    }
+    let same = match (&plain, &spied) {
+        (Ok(Ok(_)), Ok(Ok(c2))) => *c2 == ctx,
+        (Ok(Err(a)), Ok(Err(b))) => loader_err(a).0 == loader_err(b).0,
+        (Err(_), Err(_)) => true,
+        _ => false,
+    };
+    format!(
+        "new=ok doc={} nget={} asked={} ctx={} escaped={} unlogged={} spysame={}{}",
+        doc,
+        log.len(),
+        if asked.is_empty() { "none".to_string() } else { asked.join("+") },
+        if ctx.is_empty() { "none".to_string() } else { ctx.join("+") },
+        escaped as u8,
+        unlogged as u8,
+        same as u8,
+        fail
+    )
+}
+
+pub fn exec(line: &str) -> String {
+    let toks: Vec<&str> = line.split_whitespace().collect();
+    match toks.as_slice() {
+        ["g", c, f, i] => exec_g(c, f, i, None),
+        ["y", c, f, i, k] if *k == "in" || *k == "out" => exec_g(c, f, i, Some(k)),
+        ["l", c, f, i, p] => exec_l(c, f, i, p, "one"),
+        ["l", c, f, i, p, m] | ["l", c, f, i, p, m, _] if ["one", "any", "all", "items", "pred"].contains(m) => exec_l(c, f, i, p, m),
+        ["j", c, f, i] => exec_j(c, f, i),
         _ => "bad-op".into(),
     }
 }
@@ -417,7 +593,16 @@ const FILES: &[&str] = &[
     "root1/\u{e9}t\u{e9}.ttl",
     "root1/q.ttl?x=1",
     "root1/.../x.ttl",
+    "root1/.%2e/mixed.ttl",
+    "root1/%2e%2e%2fsecret.ttl",
+    "root1/%252e%252e/dbl.ttl",
+    "root1/%c0%ae%c0%ae/overlong.ttl",
+    "root1/\u{ff0e}\u{ff0e}/fullwidth.ttl",
+    "root1/..\u{ff0f}secret.ttl",
+    "root1/A.TTL",
+    "root1/sub/m.jsonld",
     "root2/a.ttl",
+    "root2/k.jsonld",
     "root2/only2.ttl",
     "root2/in/h.nt",
     "rootS/e.ttl",
@@ -428,6 +613,8 @@ const FILES: &[&str] = &[
     "secret/n.nt",
     "secret/j.jsonld",
     "secret/x.rdf",
+    "secret.jsonld",
+    "secret.nt",
     "root1.ttl",
     "root1x/a.ttl",
 ];
@@ -466,6 +653,10 @@ const SEGS: &[&str] = &[
     "secret", "secret.ttl", "s.ttl", "s", "s2", "n", "j", "x", "root1", "root2", "rootS", "in", "h",
     "only2", "zzq-absent", "...", ".ttl", ".hidden", ".hidden.ttl", "emptydir", "x.ttl", "\u{e9}t\u{e9}", "q.ttl?x=1",
     "a.ttl?x=1", "root1.ttl", "root1x", "links.ttl",
+    // more ways to spell a dot segment / a separator that a decoder or normaliser could turn into one
+    ".%2e", "%2e", "%2E.", ".%2E", "%2e%2e%2f", "%2E%2E%2F", "%2F", "..%2F", "%252e%252e", "%252e%252e%252f", "%c0%ae%c0%ae",
+    "%c0%af", "%5c", "..%5c", "%00", "%2e%2e%00", "%20", "\u{ff0e}\u{ff0e}", "..\u{ff0f}", "\u{2024}\u{2024}", "%ef%bc%8e%ef%bc%8e",
+    "secret.jsonld", "secret.nt", "j.jsonld", "m.jsonld", "k.jsonld", "c.jsonld", "m", "k", "A.TTL", "a.TTL", "mixed.ttl", "dbl.ttl",
 ];
 
 /// segments that make the IRI invalid (RFC 3987): reachable only through the unchecked const constructor
@@ -643,32 +834,57 @@ fn emit_g(ctx: &mut GenCtx, cfg: &[(String, String)], fs: &str, iri: &str, tag: 
 }
 
 /// attack / hit shapes aimed at one target file from one configured pair
-fn directed(ctx: &mut GenCtx, cfg: &[(String, String)], fs: &str, ns: &str, dir: &str, target: &str) {
-    let Some(dir_rel) = normalise_rel(dir) else { return };
+fn shapes(ns: &str, dir: &str, target: &str) -> Vec<(&'static str, String)> {
+    let Some(dir_rel) = normalise_rel(dir) else { return vec![] };
     let rel = rel_from(&dir_rel, target);
-    let shapes = vec![
-        format!("{ns}{rel}"),
-        format!("{ns}{}", strip_ext(&rel)),
-        format!("{ns}{rel}#frag"),
-        format!("{ns}./{rel}"),
-        format!("{ns}{}", rel.replace("../", "..//")),
-        format!("{ns}{}", rel.replace("..", "%2e%2e")),
-        format!("{ns}{}", rel.replace("..", "%2E%2E")),
-        format!("{ns}{}", rel.replace("../", "..%2f")),
-        format!("{ns}{}", rel.replace('/', "\\")),
-        format!("{ns}{{B}}/{target}"),
-        format!("{ns}{{B}}/{}", strip_ext(target)),
-        format!("{ns}/{{B}}/{target}"),
-        format!("{ns}x/../{rel}"),
-        format!("{ns}zzq-absent/../{rel}"),
-        format!("{ns}a.ttl/../{rel}"),
-        format!("{ns}{}{{B}}/{target}", "../".repeat(40)),
-        format!("{ns}sub/../{rel}"),
-        format!("{ns}{rel}/"),
-        format!("{ns}{rel}/."),
-        format!("{ns}{rel}?q=1"),
-    ];
-    for s in shapes {
+    let up = rel.matches("../").count();
+    vec![
+        ("plain", format!("{ns}{rel}")),
+        ("noext", format!("{ns}{}", strip_ext(&rel))),
+        ("frag", format!("{ns}{rel}#frag")),
+        ("curdir", format!("{ns}./{rel}")),
+        ("curdir2", format!("{ns}././{rel}")),
+        ("curdir_n", format!("{ns}{}{rel}", "./".repeat(up))),
+        ("curdir_noext", format!("{ns}./{}", strip_ext(&rel))),
+        ("curdir_mid", format!("{ns}sub/./../{rel}")),
+        ("dslash", format!("{ns}{}", rel.replace("../", "..//"))),
+        ("pct_lower", format!("{ns}{}", rel.replace("..", "%2e%2e"))),
+        ("pct_upper", format!("{ns}{}", rel.replace("..", "%2E%2E"))),
+        ("pct_mixed1", format!("{ns}{}", rel.replace("..", ".%2e"))),
+        ("pct_mixed2", format!("{ns}{}", rel.replace("..", "%2E."))),
+        ("pct_noext", format!("{ns}{}", strip_ext(&rel).replace("..", "%2e%2e"))),
+        ("pct_slash", format!("{ns}{}", rel.replace("../", "..%2f"))),
+        ("pct_slash_upper", format!("{ns}{}", rel.replace("../", "..%2F"))),
+        ("pct_all", format!("{ns}{}", rel.replace("../", "%2e%2e%2f"))),
+        ("pct_all_slashes", format!("{ns}{}", rel.replace('/', "%2f"))),
+        ("pct_double", format!("{ns}{}", rel.replace("..", "%252e%252e"))),
+        ("pct_overlong", format!("{ns}{}", rel.replace("..", "%c0%ae%c0%ae"))),
+        ("pct_backslash", format!("{ns}{}", rel.replace("../", "..%5c"))),
+        ("pct_nul", format!("{ns}{rel}%00.ttl")),
+        ("fullwidth_dot", format!("{ns}{}", rel.replace("..", "\u{ff0e}\u{ff0e}"))),
+        ("fullwidth_slash", format!("{ns}{}", rel.replace("../", "..\u{ff0f}"))),
+        ("fullwidth_pct", format!("{ns}{}", rel.replace("..", "%ef%bc%8e%ef%bc%8e"))),
+        ("upper", format!("{ns}{}", rel.to_uppercase())),
+        ("backslash", format!("{ns}{}", rel.replace('/', "\\"))),
+        ("abs", format!("{ns}{{B}}/{target}")),
+        ("abs_noext", format!("{ns}{{B}}/{}", strip_ext(target))),
+        ("abs_slash", format!("{ns}/{{B}}/{target}")),
+        ("abs_pct", format!("{ns}%2f{{B}}/{target}")),
+        ("via_x", format!("{ns}x/../{rel}")),
+        ("via_absent", format!("{ns}zzq-absent/../{rel}")),
+        ("via_file", format!("{ns}a.ttl/../{rel}")),
+        ("to_root", format!("{ns}{}{{B}}/{target}", "../".repeat(40))),
+        ("via_sub", format!("{ns}sub/../{rel}")),
+        ("via_sub_deep", format!("{ns}sub/deep/../../{rel}")),
+        ("trail_slash", format!("{ns}{rel}/")),
+        ("trail_dot", format!("{ns}{rel}/.")),
+        ("query", format!("{ns}{rel}?q=1")),
+    ]
+}
+
+fn directed(ctx: &mut GenCtx, cfg: &[(String, String)], fs: &str, ns: &str, dir: &str, target: &str) {
+    for (tag, s) in shapes(ns, dir, target) {
+        ctx.stats.bump(&format!("shape.{tag}"));
         emit_g(ctx, cfg, fs, &s, "g.directed");
     }
 }
@@ -811,65 +1027,189 @@ pub fn generate(ctx: &mut GenCtx) {
         emit_g(ctx, &cfg, &fs_plain, &iri, "g.random");
     }
 
-    // ---- links planted in loaded Turtle data
+    // ---- links planted in loaded data, followed through every entry point of `Resource`
+    const MODES: &[&str] = &["one", "any", "all", "items", "pred"];
     let ndocs = if ctx.thorough { 12 } else { 3 };
     for d in 0..ndocs {
-        let cfg = loop {
-            let c = random_cfg(ctx);
-            if c.first().map(|(_, dir)| normalise_rel(dir).as_deref() == Some("root1")).unwrap_or(false) {
-                break c;
+        let cfg = root1_first_cfg(ctx);
+        let ns0 = cfg[0].0.clone();
+        // (a) Turtle: relative references and absolute IRIs, resolved against the document by the parser
+        //     (dot segments are removed there); (b) N-Triples: absolute IRIs reach the loader verbatim
+        for nt in [false, true] {
+            let name = if nt { "links.nt" } else { "links.ttl" };
+            let doc_iri = format!("{ns0}{name}");
+            let mut links: Vec<String> = if nt {
+                let mut v: Vec<String> = vec![];
+                for t in ["secret.ttl", "secret/s.ttl", "secret/s2", "secret/n.nt", "secret.nt", "secret/j.jsonld", "root2/a.ttl", "root1/a.ttl", "root1/sub/e.ttl", "root1/c.jsonld"] {
+                    for (ns, dir) in &cfg {
+                        v.extend(shapes(ns, dir, t).into_iter().map(|x| x.1));
+                    }
+                }
+                v.push("http://elsewhere.example/x".into());
+                v.push("urn:x:/a.ttl".into());
+                v.push(format!("{doc_iri}#other"));
+                v.push(doc_iri.clone());
+                v
+            } else {
+                vec![
+                    "../secret.ttl".into(),
+                    "../secret/s.ttl".into(),
+                    "../secret/s".into(),
+                    "sub/e.ttl".into(),
+                    "a".into(),
+                    "a.ttl#x".into(),
+                    "".into(),
+                    "#self".into(),
+                    "/ns/a.ttl".into(),
+                    "//ex.org/ns/../secret.ttl".into(),
+                    "/{B}/secret.ttl".into(),
+                    "./../secret.ttl".into(),
+                    "%2e%2e/secret.ttl".into(),
+                    ".%2e/secret.ttl".into(),
+                    "..%2fsecret.ttl".into(),
+                    format!("{ns0}../secret.ttl"),
+                    format!("{ns0}../secret/s"),
+                    format!("{ns0}{{B}}/secret/s.ttl"),
+                    format!("{ns0}/{{B}}/secret.ttl"),
+                    format!("{ns0}%2e%2e/secret.ttl"),
+                    format!("{ns0}sub/../a.ttl"),
+                    format!("{ns0}../root2/a.ttl"),
+                    format!("{ns0}c.jsonld"),
+                    format!("{ns0}e.txt"),
+                    format!("{ns0}../secret/j.jsonld"),
+                    format!("{ns0}../secret/x.rdf"),
+                    "http://elsewhere.example/x".into(),
+                    "urn:x:/a.ttl".into(),
+                ]
+            };
+            let wanted = if nt { links.len() + 24 } else { 64 };
+            let mut tries = 0;
+            while links.len() < wanted && tries < 10000 {
+                tries += 1;
+                let ns = ctx.rng.pick(&cfg).0.clone();
+                let iri = if !nt && ctx.rng.chance(1, 4) { random_rem(ctx) } else { format!("{ns}{}", random_rem(ctx)) };
+                let iri = decorate(ctx, iri);
+                if iri.len() < 200 {
+                    links.push(iri);
+                }
             }
-        };
-        let doc_iri = format!("{}links.ttl", cfg[0].0);
-        let mut links: Vec<String> = vec![
-            "../secret.ttl".into(),
-            "../secret/s.ttl".into(),
-            "../secret/s".into(),
-            "sub/e.ttl".into(),
-            "a".into(),
-            "a.ttl#x".into(),
-            "".into(),
-            "#self".into(),
-            "/ns/a.ttl".into(),
-            "//ex.org/ns/../secret.ttl".into(),
-            "/{B}/secret.ttl".into(),
-            format!("{}../secret.ttl", cfg[0].0),
-            format!("{}../secret/s", cfg[0].0),
-            format!("{}{{B}}/secret/s.ttl", cfg[0].0),
-            format!("{}/{{B}}/secret.ttl", cfg[0].0),
-            format!("{}%2e%2e/secret.ttl", cfg[0].0),
-            format!("{}sub/../a.ttl", cfg[0].0),
-            format!("{}../root2/a.ttl", cfg[0].0),
-            format!("{}c.jsonld", cfg[0].0),
-            format!("{}e.txt", cfg[0].0),
-            format!("{}../secret/j.jsonld", cfg[0].0),
-            format!("{}../secret/x.rdf", cfg[0].0),
-            "http://elsewhere.example/x".into(),
-            "urn:x:/a.ttl".into(),
-        ];
-        while links.len() < 64 {
-            let ns = ctx.rng.pick(&cfg).0.clone();
-            let iri = if ctx.rng.chance(1, 4) { random_rem(ctx) } else { format!("{ns}{}", random_rem(ctx)) };
-            let iri = decorate(ctx, iri);
-            if turtle_safe(&iri) && iri.len() < 200 && sophia_iri::IriRef::new(iri.replace(PH, "/x")).is_ok() {
-                links.push(iri);
+            links.retain(|l| {
+                let probe = l.replace(PH, "/x");
+                turtle_safe(l) && l.len() < 400 && if nt { Iri::new(probe).is_ok() } else { sophia_iri::IriRef::new(probe).is_ok() }
+            });
+            links.dedup();
+            let rel_doc = format!("root1/{name}");
+            let mut content = if nt { format!("<urn:vh:file:{0}> <urn:vh:is> \"{0}\" .\n", hex(&rel_doc)) } else { marker(&rel_doc) };
+            for (k, l) in links.iter().enumerate() {
+                // object of P_LINK, only member of the list under P_LIST, subject of P_REV
+                if nt {
+                    content.push_str(&format!("<{doc_iri}#l{k}> <{P_LINK}> <{l}> .\n"));
+                    content.push_str(&format!("<{doc_iri}#l{k}> <{P_LIST}> _:b{k} .\n"));
+                    content.push_str(&format!("_:b{k} <http://www.w3.org/1999/02/22-rdf-syntax-ns#first> <{l}> .\n"));
+                    content.push_str(&format!("_:b{k} <http://www.w3.org/1999/02/22-rdf-syntax-ns#rest> <http://www.w3.org/1999/02/22-rdf-syntax-ns#nil> .\n"));
+                    content.push_str(&format!("<{l}> <{P_REV}> <{doc_iri}#l{k}> .\n"));
+                } else {
+                    content.push_str(&format!("<#l{k}> <{P_LINK}> <{l}> ; <{P_LIST}> ( <{l}> ) .\n<{l}> <{P_REV}> <#l{k}> .\n"));
+                }
+            }
+            let mut with_doc = plain.clone();
+            with_doc.push(('c', rel_doc, Some(content)));
+            let fs_doc = fs_tok(&with_doc);
+            for (k, l) in links.iter().enumerate() {
+                // every link through `get_resource`, and through one of the other entry points in turn
+                for mode in ["one", MODES[1 + (k + d) % 4]] {
+                    ctx.stats.bump(if nt { "l.link_nt" } else { "l.link_ttl" });
+                    ctx.stats.bump(&format!("l.mode_{mode}"));
+                    if l.split(['/', '#']).any(|sg| sg == "..") {
+                        ctx.stats.bump(if nt { "l.nt_dotdot_verbatim" } else { "l.ttl_dotdot_resolved_by_parser" });
+                    }
+                    let given = if nt { hex(l) } else { "-".to_string() };
+                    ctx.emit(&format!("l {} {} {} {} {} {}", cfg_tok(&cfg), fs_doc, hex(&format!("{doc_iri}#l{k}")), hex(P_LINK), mode, given));
+                }
+            }
+            if d == 0 {
+                ctx.stats.sample(format!("links doc {name} for {:?}: {} links", cfg, links.len()));
             }
         }
-        let mut content = marker("root1/links.ttl");
-        for (k, l) in links.iter().enumerate() {
-            if turtle_safe(l) {
-                content.push_str(&format!("<#l{k}> <{P_LINK}> <{l}> .\n"));
+    }
+
+    // ---- JSON-LD documents with remote contexts: `get_graph` fetches them through a closure calling `get`
+    let njdocs = if ctx.thorough { 10 } else { 3 };
+    for d in 0..njdocs {
+        let cfg = root1_first_cfg(ctx);
+        let ns0 = cfg[0].0.clone();
+        let mut ctxs: Vec<String> = vec![];
+        for t in ["secret/j.jsonld", "secret.jsonld", "root1/c.jsonld", "root1/sub/m.jsonld", "root2/k.jsonld"] {
+            for (ns, dir) in &cfg {
+                ctxs.extend(shapes(ns, dir, t).into_iter().map(|x| x.1));
             }
         }
-        let mut with_doc = plain.clone();
-        with_doc.push(('c', "root1/links.ttl".to_string(), Some(content)));
-        let fs_doc = fs_tok(&with_doc);
-        for k in 0..links.len() {
-            ctx.stats.bump("l.link");
-            ctx.emit(&format!("l {} {} {} {}", cfg_tok(&cfg), fs_doc, hex(&format!("{doc_iri}#l{k}")), hex(P_LINK)));
+        ctxs.extend(
+            ["c.jsonld", "c", "sub/m.jsonld", "../secret/j.jsonld", "../secret.jsonld", "./../secret.jsonld", "%2e%2e/secret.jsonld", "/{B}/secret.jsonld", "file://{B}/secret.jsonld", "file://{B}/root1/c.jsonld", "{B}/secret.jsonld", "a.ttl", "zzq-absent.jsonld"]
+                .iter()
+                .map(|x| x.to_string()),
+        );
+        ctxs.retain(|l| !l.contains(['"', '\\']) && !l.chars().any(|c| c < ' '));
+        ctxs.dedup();
+        let mut entries = plain.clone();
+        let mut reqs: Vec<String> = vec![];
+        for (k, c) in ctxs.iter().enumerate() {
+            let rel_doc = format!("root1/jdoc{k}.jsonld");
+            let h = hex(&rel_doc);
+            // string / array / @import / property-scoped context
+            let (form, body) = match (k + d) % 4 {
+                0 => ("string", format!("{{\"@context\":\"{c}\",\"@id\":\"urn:vh:doc\",\"vhmark\":\"v\",\"urn:vh:is\":\"{h}\"}}")),
+                1 => ("array", format!("{{\"@context\":[{{\"x\":\"urn:vh:x\"}},\"{c}\"],\"@id\":\"urn:vh:doc\",\"vhmark\":\"v\",\"urn:vh:is\":\"{h}\"}}")),
+                2 => ("import", format!("{{\"@context\":{{\"@version\":1.1,\"@import\":\"{c}\"}},\"@id\":\"urn:vh:doc\",\"vhmark\":\"v\",\"urn:vh:is\":\"{h}\"}}")),
+                _ => ("scoped", format!("{{\"@context\":{{\"t\":{{\"@id\":\"urn:vh:t\",\"@context\":\"{c}\"}}}},\"@id\":\"urn:vh:doc\",\"urn:vh:is\":\"{h}\",\"t\":{{\"@id\":\"urn:vh:inner\",\"vhmark\":\"v\"}}}}")),
+            };
+            ctx.stats.bump(&format!("j.form_{form}"));
+            if c.split('/').any(|sg| sg == "..") {
+                ctx.stats.bump("j.ctx_dotdot");
+            }
+            entries.push(('c', rel_doc, Some(body)));
+            reqs.push(hex(&format!("{ns0}jdoc{k}.jsonld")));
+        }
+        let fs_j = fs_tok(&entries);
+        for r in reqs {
+            ctx.stats.bump("j.doc");
+            ctx.emit(&format!("j {} {} {}", cfg_tok(&cfg), fs_j, r));
         }
         if d == 0 {
-            ctx.stats.sample(format!("links doc for {:?}: {} links", cfg, links.len()));
+            ctx.stats.sample(format!("json-ld docs for {:?}: {} contexts", cfg, ctxs.len()));
+        }
+    }
+
+    // ---- symbolic links: outside the property (assumption), exercised and reported
+    let mut with_links = plain.clone();
+    with_links.push(('s', "root1/lnk_out".to_string(), Some("../secret".to_string())));
+    with_links.push(('s', "root1/sub/up".to_string(), Some("..".to_string())));
+    with_links.push(('s', "root1/lnk_in".to_string(), Some("sub".to_string())));
+    with_links.push(('s', "root1/lnk_abs_in".to_string(), Some("{B}/root1/sub/deep".to_string())));
+    let fs_sym = fs_tok(&with_links);
+    for (iri, kind) in [
+        ("http://ex.org/ns/lnk_in/e.ttl", "in"),
+        ("http://ex.org/ns/lnk_in/e", "in"),
+        ("http://ex.org/ns/lnk_in/deep/f.ttl", "in"),
+        ("http://ex.org/ns/lnk_abs_in/f.ttl", "in"),
+        ("http://ex.org/ns/lnk_in/../a.ttl", "in"),
+        ("http://ex.org/ns/lnk_out/s.ttl", "out"),
+        ("http://ex.org/ns/lnk_out/s2", "out"),
+        ("http://ex.org/ns/sub/up/a.ttl", "out"),
+        ("http://ex.org/ns/sub/up/up/secret.ttl", "out"),
+        ("http://ex.org/ns/sub/up/sub/up/sub/e.ttl", "out"),
+    ] {
+        ctx.stats.bump(if kind == "in" { "y.symlink_inside_checked" } else { "y.symlink_outside_reported" });
+        ctx.emit(&format!("y {} {} {} {}", cfg_tok(&one), fs_sym, hex(iri), kind));
+    }
+}
+
+/// a random configuration whose first pair maps to root1 (where the documents with links live)
+fn root1_first_cfg(ctx: &mut GenCtx) -> Vec<(String, String)> {
+    loop {
+        let c = random_cfg(ctx);
+        if c.first().map(|(_, dir)| normalise_rel(dir).as_deref() == Some("root1")).unwrap_or(false) {
+            return c;
         }
     }
 }
